@@ -52,7 +52,7 @@ def gen_case(seed, tier, idx):
 
     def newmap():
         if kind == "big":
-            aw = rnd.choice([7, 9, 12, 16, 17, 24, 33, 40])
+            aw = rnd.choice([7, 9, 12, 16, 17, 24, 33, 40, 54, 60, 64])   # beyond 2**53: no float can be involved
         else:
             aw = rnd.choice([1, 2, 3, 3, 4, 4, 5, 6])
         dw = rnd.choice([8, 8, 8, 16, 32])
@@ -89,11 +89,12 @@ def gen_case(seed, tier, idx):
             if rnd.random() < 0.9:
                 size = rnd.choice([0, 1, 1, 2, 3, 4, 5, 8, -1, "x"]) if rnd.random() < 0.9 else rnd.randrange(top) + 2
             else:
-                size = rnd.choice([top, top + 1, top // 2, 1])
+                size = rnd.choice([top, top + 1, top // 2, 1, (top >> 2) + 1, (top >> 3) + 5])
             if aw <= 6:
                 addr = rnd.choice([None, None, None] + list(range(0, top + 2)) + [-1, "x"])
             else:
-                addr = rnd.choice([None, None, None, 0, 1, 2, 4, 8, 64, top - 1, top - 4, top, top + 1, rnd.randrange(top), -1, "x"])
+                addr = rnd.choice([None, None, None, 0, 1, 2, 4, 8, 64, top - 1, top - 4, top, top + 1, rnd.randrange(top), -1, "x",
+                                   (top >> 1) + 1, (top >> 2) + 3, top - (1 << (aw // 2)) - 1])
             alg = rnd.choice([None, None, 0, 1, 2, 3, -1, "x"])
             if kind == "names" and rnd.random() < 0.8:
                 size, addr, alg = 1, None, None
